@@ -98,17 +98,7 @@ func c13Fanout(c *Ctx, p *Prog, m *Model) {
 	okRange := false
 	if u, ok := inv.Common().Value.(*ssa.UnOp); ok {
 		if ia, ok := u.X.(*ssa.IndexAddr); ok && ia.X == ssa.Value(lw.Params[0]) {
-			if bo, ok := ia.Index.(*ssa.BinOp); ok && bo.Op == token.ADD {
-				if one, ok := constInt(bo.Y); ok && one == 1 {
-					if ph, ok := bo.X.(*ssa.Phi); ok {
-						for _, e := range ph.Edges {
-							if v, ok := constInt(e); ok && v == -1 {
-								okRange = true
-							}
-						}
-					}
-				}
-			}
+			okRange = fullIndexLoop(ia.Index, ia.X)
 		}
 	}
 	r.Check(okRange, "R13.1", "fanout:range", p.Pos(instrPos(inv)), "the loop ranges over every member of the receiver from the first", "the loop over the members is not a plain range over the receiver (members may be skipped)")
